@@ -10,7 +10,9 @@
    strings for scripts / datums / redeemer data, arbitrary identity classes, arbitrary cost-model tables,
    arbitrary histories of builder operations. *)
 From CSL Require Import Base.Prelude Cbor.Head Cbor.Item ScriptData.LangViews ScriptData.ScriptData
-  ScriptData.ScriptDataSpec ScriptData.ScriptDataProofs ScriptData.SlicesProofs ScriptData.Blake2bProofs.
+  ScriptData.ScriptDataSpec ScriptData.ScriptDataProofs ScriptData.SlicesProofs ScriptData.Blake2bProofs
+  ScriptData.SubBuilders ScriptData.SubBuildersProofs.
+From CSL Require Pointers.Pointers.
 Local Open Scope N_scope.
 
 (* ---- the stand-alone helper -------------------------------------------------------------------------------- *)
@@ -41,6 +43,19 @@ Theorem C09_preimage_spec_gen : forall (count_dups empty_hashed : bool) (r : red
   ledger_preimage (assoc_field 5 fs) (assoc_field 4 fs) (spec_views (helper_langs r cm) cm).
 Proof. exact preimage_spec_gen. Qed.
 Print Assumptions C09_preimage_spec_gen.
+
+
+(* the same with key / bootstrap witnesses in the witness set (fields 0 and 2 do not enter the hash) *)
+Theorem C09_preimage_spec_with : forall (count_dups empty_hashed : bool) (vk bo : option bytes) (r : redeemers) (cm : costmdls)
+    (d : option plutus_list),
+  helper_out_of_scope r d = false ->
+  (count_dups = true -> known_dup_definite d = false) ->
+  (empty_hashed = true -> known_empty_datums d = false) ->
+  let fs := ws_fields (helper_witness_set_with vk bo r d) in
+  script_data_preimage_gen count_dups empty_hashed r cm d =
+  ledger_preimage (assoc_field 5 fs) (assoc_field 4 fs) (spec_views (helper_langs r cm) cm).
+Proof. exact preimage_spec_with. Qed.
+Print Assumptions C09_preimage_spec_with.
 
 (* the defects: with the header counting the un-deduplicated list / an empty datum list being hashed, the
    unrestricted statement is false (witnesses; they stay valid after the repair because they speak about `_gen true`) *)
@@ -98,7 +113,7 @@ Print Assumptions C09_views_only_used.
    paths (calc_script_data_hash / get_witness_set) and the two serialisation paths (to_set_bytes /
    serialize_as_set(false) on the de-duplicated clone) agree *)
 Theorem C09_same_bytes : forall (H : bytes -> bytes) (b0 : builder) (cm : costmdls) (b1 b : builder) (t : tx),
-  wf_builder b0 ->
+  wf_builder b0 -> known_stale_lang b0 = false ->
   calc_script_data_hash H b0 cm = Ok b1 ->
   (has_script_items b0 = true \/ b_script_data_hash b0 = None) ->
   script_view b = script_view b0 -> b_script_data_hash b = b_script_data_hash b1 ->
@@ -116,6 +131,7 @@ Theorem C09_same_bytes_history : forall (H : bytes -> bytes) (ops : list op) (cm
   let b := fst (run H builder_new ops) in
   is_ok (calc_script_data_hash H b0 cm) = true ->
   has_script_items b0 || is_none (b_script_data_hash b0) = true ->
+  known_stale_lang b0 = false ->
   build_tx H b = Ok t ->
   let fs := ws_fields (tx_witness_set t) in
   tx_script_data_hash t = ledger_script_integrity H (assoc_field 5 fs) (assoc_field 4 fs) (langs_used b) cm.
@@ -124,11 +140,21 @@ Print Assumptions C09_same_bytes_history.
 
 (* the preimage itself (not only its hash) is the ledger's *)
 Theorem C09_calc_preimage : forall (H : bytes -> bytes) (b : builder) (cm : costmdls) (pre : bytes),
-  wf_builder b -> calc_preimage b cm = Ok (Some pre) ->
+  wf_builder b -> known_stale_lang b = false -> calc_preimage b cm = Ok (Some pre) ->
   let fs := ws_fields (get_witness_set b) in
   pre = ledger_preimage (assoc_field 5 fs) (assoc_field 4 fs) (spec_views (langs_used b) cm).
-Proof. intros H b cm pre Hwf Hc. destruct (calc_preimage_spec H b cm _ Hwf Hc) as [_ [Hp _]]. exact Hp. Qed.
+Proof. intros H b cm pre Hwf Hs Hc. destruct (calc_preimage_spec H b cm _ Hwf Hs Hc) as [_ [Hp _]]. exact Hp. Qed.
 Print Assumptions C09_calc_preimage.
+
+
+(* the heart of C09_same_bytes for both values of the switch stale_langs_counted (languages from the sub-builders'
+   registrations / from the collected witnesses); with the switch off the class is empty (known_stale_lang_gen false = false) *)
+Theorem C09_calc_preimage_gen : forall (H : bytes -> bytes) (counted : bool) (b : builder) (cm : costmdls) (pre : bytes),
+  wf_builder b -> known_stale_lang_gen counted b = false -> calc_preimage_gen counted b cm = Ok (Some pre) ->
+  let fs := ws_fields (get_witness_set b) in
+  pre = ledger_preimage (assoc_field 5 fs) (assoc_field 4 fs) (spec_views (langs_used b) cm).
+Proof. intros H c b cm pre Hwf Hs Hc. destruct (calc_preimage_spec_gen H c b cm _ Hwf Hs Hc) as [_ [Hp _]]. exact Hp. Qed.
+Print Assumptions C09_calc_preimage_gen.
 
 (* C09_aux: the auxiliary-data hash of the body is the hash of the auxiliary data the transaction carries, as serialised *)
 Theorem C09_aux : forall (H : bytes -> bytes) (b : builder) (t : tx),
@@ -189,10 +215,25 @@ Theorem C09_stale_hash_not_detected : forall H : bytes -> bytes,
 Proof. exact stale_hash_not_detected. Qed.
 Print Assumptions C09_stale_hash_not_detected.
 
+
+(* known class C09-stale-input-language (shared root with C10-stale-spend-witness / C18-input-readded-with-other-owner):
+   an input added with a Plutus witness and then again as a key input keeps the witness registered; when the input
+   builder still returns another Plutus witness, the stale one's language goes into the hash although nothing of it is emitted — without the premise known_stale_lang = false the statement is false *)
+Theorem C09_stale_lang_refuted :
+  exists p_hashed p_ledger,
+    calc_preimage_gen true stale_lang_builder stale_lang_cm = Ok (Some p_hashed) /\
+    (let fs := ws_fields (get_witness_set stale_lang_builder) in
+     p_ledger = ledger_preimage (assoc_field 5 fs) (assoc_field 4 fs) (spec_views (langs_used stale_lang_builder) stale_lang_cm)) /\
+    p_hashed <> p_ledger /\
+    known_stale_lang_gen true stale_lang_builder = true /\
+    calc_preimage_gen false stale_lang_builder stale_lang_cm = Ok (Some p_ledger).
+Proof. exact stale_lang_refuted. Qed.
+Print Assumptions C09_stale_lang_refuted.
+
 (* calc_script_data_hash on a builder without script items is a no-op: a hash stored earlier is kept (the reason for
    the premise `has_script_items b0 \/ hash b0 = None` above) *)
 Theorem C09_calc_noop_keeps_hash : forall (H : bytes -> bytes) (b : builder) (cm : costmdls),
-  has_script_items b = false -> wf_builder b -> calc_script_data_hash H b cm = Ok b.
+  has_script_items b = false -> wf_builder b -> known_stale_lang b = false -> calc_script_data_hash H b cm = Ok b.
 Proof. exact calc_noop_keeps_hash. Qed.
 Print Assumptions C09_calc_noop_keeps_hash.
 
@@ -221,6 +262,7 @@ Theorem C09_same_bytes_history_bytes : forall (H : bytes -> bytes) (ops : list o
   let b := fst (run H builder_new ops) in
   is_ok (calc_script_data_hash H b0 cm) = true ->
   has_script_items b0 || is_none (b_script_data_hash b0) = true ->
+  known_stale_lang b0 = false ->
   build_tx H b = Ok t ->
   Forall (fun kv => item_wf (snd kv) = true) (ws_fields (tx_witness_set t)) ->
   exists sl, map_slices (ws_bytes (tx_witness_set t)) = Ok sl /\
@@ -251,6 +293,7 @@ Theorem C09_judge_accepts_model : forall (H : bytes -> bytes) (ops : list op) (c
   last_calc_rev (rev ops) = Some (cm, before) ->
   is_ok (calc_script_data_hash H (fst (run H builder_new (rev before))) cm) = true ->
   has_script_items (fst (run H builder_new (rev before))) || is_none (b_script_data_hash (fst (run H builder_new (rev before)))) = true ->
+  known_stale_lang (fst (run H builder_new (rev before))) = false ->
   other_ok other -> len (body_fields other t) < two64 ->
   hash_ok (tx_script_data_hash t) -> hash_ok (tx_aux_data_hash t) ->
   Forall (fun kv => item_wf (snd kv) = true) (ws_fields (tx_witness_set t)) ->
@@ -258,6 +301,32 @@ Theorem C09_judge_accepts_model : forall (H : bytes -> bytes) (ops : list op) (c
   judge_builder H ops (tx_bytes other t) = Holds.
 Proof. exact judge_builder_accepts_model. Qed.
 Print Assumptions C09_judge_accepts_model.
+
+(* ---- the languages in use COMPUTED from the sub-builders' entries (joint with the C10 model Pointers/Pointers.v) ---- *)
+
+(* what calc_script_data_hash reads from the entries of the seven sub-builders (get_used_plutus_lang_versions, with the
+   `if let Some(..)` guard of the two input builders) is the language set of the derived C09 state with the stale
+   registrations counted, for every C10 builder state with duplicate-free withdrawal keys (every reachable one) *)
+Theorem C09_entries_langs_model : forall (pay : N -> payload) (t : P.txb) (ncol : N) (extra : option (list pdata))
+    (h : option bytes) (a : option aux_data) (l : lang),
+  NoDup (map fst (P.t_wdrl t)) ->
+  mem_lang l (entries_langs pay t) = mem_lang l (used_langs_gen true (builder_of pay t ncol extra h a)).
+Proof. exact entries_langs_model. Qed.
+Print Assumptions C09_entries_langs_model.
+
+(* C09_same_bytes with the languages computed from the entries, not given *)
+Theorem C09_same_bytes_entries : forall (H : bytes -> bytes) (pay : N -> payload) (t : P.txb) (ncol : N)
+    (extra : option (list pdata)) (h : option bytes) (a : option aux_data) (cm : costmdls) (b1 : builder) (tx : ScriptData.tx),
+  let b0 := builder_of pay t ncol extra h a in
+  wf_builder b0 -> NoDup (map fst (P.t_wdrl t)) ->
+  known_stale_lang_gen true b0 = false ->
+  calc_script_data_hash H b0 cm = Ok b1 ->
+  (has_script_items b0 = true \/ h = None) ->
+  build_tx H b1 = Ok tx ->
+  let fs := ws_fields (tx_witness_set tx) in
+  tx_script_data_hash tx = ledger_script_integrity H (assoc_field 5 fs) (assoc_field 4 fs) (entries_langs pay t) cm.
+Proof. exact same_bytes_entries. Qed.
+Print Assumptions C09_same_bytes_entries.
 
 (* ---- non-vacuity ------------------------------------------------------------------------------------------- *)
 Definition ex_datum_a : pdata := mk_pdata 1 [24; 42].
@@ -269,12 +338,12 @@ Definition ex_w (s : script_source) (d : datum_source) (tag idx : N) : witness :
 Definition ex_cm : costmdls := mk_costmdls (Some [1; -2; 300]%Z) (Some [0; 70000]%Z) (Some [5]%Z).
 (* spends with a duplicated datum, a reference script, a mint, an extra datum; calc after everything, then metadata *)
 Definition ex_ops : list op :=
-  [ OpSetSub SubCollateral [] 1;
-    OpSetSub SubInputs [ex_w (SrcScript ex_script1) (DatumValue ex_datum_a) 0 0;
-                        ex_w (SrcScript ex_script1) (DatumValue ex_datum_a) 0 1;
-                        ex_w (SrcRef V2) DatumRef 0 2] 3;
+  [ OpSetSub SubCollateral (mk_sub [] [] []) 1;
+    OpSetSub SubInputs (mk_sub [ex_w (SrcScript ex_script1) (DatumValue ex_datum_a) 0 0;
+                                ex_w (SrcScript ex_script1) (DatumValue ex_datum_a) 0 1;
+                                ex_w (SrcRef V2) DatumRef 0 2] [V1] [[130; 0; 1]; [130; 0; 1]]) 3;
     OpAddExtraDatum ex_datum_b; OpAddExtraDatum ex_datum_a;
-    OpSetSub SubMint [ex_w (SrcScript ex_script2) DatumNone 1 0] 0;
+    OpSetSub SubMint (mk_sub [ex_w (SrcScript ex_script2) DatumNone 1 0] [] [[130; 0; 2]]) 0;
     OpCalc ex_cm;
     OpAddMetadatum 674 [97; 104] ].
 Definition idH (bs : bytes) : bytes := bs.
@@ -283,10 +352,13 @@ Example C09_history_premises_satisfiable :
     last_calc_rev (rev ex_ops) = Some (ex_cm, before) /\
     is_ok (calc_script_data_hash idH (fst (run idH builder_new (rev before))) ex_cm) = true /\
     has_script_items (fst (run idH builder_new (rev before))) = true /\
+    known_stale_lang (fst (run idH builder_new (rev before))) = false /\      (* a stale PlutusV1 witness, but V1 is in use anyway *)
     build_tx idH (fst (run idH builder_new ex_ops)) = Ok t /\
     (* V2 (used by the reference script and the mint) and V1, not V3; the duplicated datum once, extra datum kept *)
     tx_script_data_hash t <> None /\ is_some (tx_aux_data_hash t) = true /\
-    assoc_field 4 (ws_fields (tx_witness_set t)) = Some [217; 1; 2; 159; 24; 42; 159; 1; 2; 255; 255].
+    assoc_field 4 (ws_fields (tx_witness_set t)) = Some [217; 1; 2; 159; 24; 42; 159; 1; 2; 255; 255] /\
+    (* the two equal native scripts of the inputs once, then the mint's *)
+    assoc_field 1 (ws_fields (tx_witness_set t)) = Some [217; 1; 2; 130; 130; 0; 1; 130; 0; 2].
 Proof. eexists _, _. repeat split; try reflexivity. vm_compute. discriminate. Qed.
 Example C09_helper_premises_satisfiable :
   helper_out_of_scope one_redeemer (Some (mk_plist [ex_datum_a; ex_datum_b] (Some true))) = false /\
@@ -310,7 +382,11 @@ Example C09_bytes_premise_satisfiable :
   | _ => False
   end.
 Proof. vm_compute. reflexivity. Qed.
-Example C09_additive_premise_satisfiable : additive idH builder_new ex_ops = true.
+Example C09_additive_premise_satisfiable :
+  additive idH builder_new
+    [ OpSetSub SubCollateral (mk_sub [] [] []) 1;
+      OpSetSub SubInputs (mk_sub [ex_w (SrcScript ex_script1) (DatumValue ex_datum_a) 0 0; ex_w (SrcRef V2) DatumRef 0 1] [] []) 2;
+      OpAddExtraDatum ex_datum_b; OpCalc ex_cm; OpAddMetadatum 674 [97; 104] ] = true.
 Proof. reflexivity. Qed.
 Example C09_wire_premises_satisfiable :
   let w := WAlonzo (Some [(1, [24; 42])]) (Some [128]) (Some []) (Some [[1; 2]]) None in
@@ -325,3 +401,16 @@ Example C09_judge_example :
   | _ => False
   end.
 Proof. vm_compute. reflexivity. Qed.
+(* a C10 history: a V2 reference-script spend, a V1 spend re-added as a key input (stale), a Plutus mint; the entries'
+   language set holds V1 (stale) although only V2 and V3 witnesses are returned *)
+Definition ex_pay (rid : N) : payload :=
+  mk_payload (match rid with 1 => SrcRef V2 | 2 => SrcRef V1 | _ => SrcScript (mk_script V3 [7]) end) DatumNone (mk_pdata rid [rid]) 10 20.
+Definition ex_txb : P.txb :=
+  fst (P.run [P.OpIn (P.InPlutus [1] ([0], 0) 1); P.OpIn (P.InPlutus [2] ([0], 1) 2); P.OpIn (P.InKey ([0], 1));
+              P.OpMint (P.mkMintOp [9] (P.MPlutus false 3) 0 1%Z false)]).
+Example C09_entries_example :
+  map (fun l => mem_lang l (entries_langs ex_pay ex_txb)) [V1; V2; V3] = [true; true; true] /\
+  map (fun l => mem_lang l (langs_used (builder_of ex_pay ex_txb 1 None None None))) [V1; V2; V3] = [false; true; true] /\
+  known_stale_lang_gen true (builder_of ex_pay ex_txb 1 None None None) = true /\
+  NoDup (map fst (P.t_wdrl ex_txb)).
+Proof. repeat split; try reflexivity. constructor. Qed.
